@@ -654,8 +654,13 @@ class ImageBatch(DataTensor):
             size = grids[0].size()
             data = U.grid_resize(self, size, mode=mode, align_corners=align_corners)
         else:
-            points = grids[0].coords(device=self.device)
-            data = U.grid_sample(self, points, mode=mode, align_corners=align_corners)
+            axes = Axes.from_align_corners(align_corners)
+            points = [grid.coords(align_corners=align_corners, device=self.device) for grid in grids]
+            points = [
+                grid_transform_points(p, grid, axes, source, axes).unsqueeze(0)
+                for p, grid, source in zip(points, grids, self._grid)
+            ]
+            data = U.grid_sample(self, torch.cat(points, dim=0), mode=mode, align_corners=align_corners)
         # Construct image pyramid by repeated downsampling
         pyramid = {}
         batch = self._make_instance(data, grids)
